@@ -5,9 +5,12 @@ model run with the search state threaded.  Class D (justified by Lp.C09.history_
 every answer of the used object, of copies taken mid-sequence and of the 2-D object against an
 object that has never been queried — bit-identical (since fix c70b127 also at tabulated abscissae).
 """
-import math, random, struct
+import math, random, struct, sys
 from fractions import Fraction
 from common import *
+
+if hasattr(sys, "set_int_max_str_digits"):
+    sys.set_int_max_str_digits(0)   # exact integrals over hundreds of segments have numerators of >4300 digits
 
 RULE = ("call histories are drawn from VERIF_SEED: tables of 3..2000 knots (uniform, random, geometric, clustered "
         "spacing), histories of up to several thousand calls mixing far jumps, correlated walks up/down, zig-zags, "
@@ -221,8 +224,29 @@ def final_battery(rng, xs, nq):
     return Q
 
 
+
+def exact_factor(rng, vals, choices, extra):
+    """a unit factor whose products with all table values are exact in double (-1 = no conversion)"""
+    c = rng.choice(choices + extra)
+    if c > 0 and not all(Fraction(v) * Fraction(c) == Fraction(v * c) and math.isfinite(v * c) for v in vals):
+        c = rng.choice([2.0, 0.5])
+    return c
+
+
+def scaled(vals, f):
+    return [v * f for v in vals] if f > 0 else list(vals)
+
+
+def units_1d(rng, xs, ys):
+    xd = exact_factor(rng, xs, [-1.0, -1.0, 2.0, 0.5, 0.25], [3.0, 1.5, 0.75])
+    fd = exact_factor(rng, ys, [-1.0, -1.0, 4.0, 0.125, 2.0], [7.0, 3.0, 1.5])
+    return xd, fd
+
+
 def hist_request(rng, tier, length=None, small=False):
-    xs, ys = table(rng, tier, small)
+    xs0, ys = table(rng, tier, small)
+    xd, fd = units_1d(rng, xs0, ys)
+    xs = fix_increasing(scaled(xs0, xd))   # queries live on the converted table (products are exact)
     if length is None:
         c = rng.random()
         top = 8000 if tier == "thorough" else 3000
@@ -231,7 +255,7 @@ def hist_request(rng, tier, length=None, small=False):
     w = rng.choice([0.5, 0.8, 0.95])
     H = [op_at(rng, xs, k, w) for k in ks]
     Q = final_battery(rng, xs, rng.randint(1, 4))
-    return "c09.hist %s %s %d %s %d %s" % (lst(xs), lst(ys), len(H), " ".join(H), len(Q), " ".join(Q))
+    return "c09.hist %s %s %s %s %d %s %d %s" % (lst(xs0), lst(ys), hx(xd), hx(fd), len(H), " ".join(H), len(Q), " ".join(Q))
 
 
 def hist_error_request(rng):
@@ -251,15 +275,19 @@ def hist_error_request(rng):
         H.append("%s %s %s" % (rng.choice("mM"), hx(xs[2]), hx(xs[1])))
     else:
         H.append("D %s 1" % hx(x))
-    return "c09.hist %s %s %d %s 0" % (lst(xs), lst(ys), len(H), " ".join(H))
+    return "c09.hist %s %s %s %s %d %s 0" % (lst(xs), lst(ys), hx(-1.0), hx(-1.0), len(H), " ".join(H))
 
 
 def hist2_request(rng, tier):
     nx = rng.choice([3, 4, 5, 8, 20, 60, 150])
     ny = rng.choice([3, 4, 6, 10, 25, 90])
-    xs = fix_increasing(make_xs(rng, nx, rng.choice(["uniform", "random", "geometric", "clustered"])))
-    ys = fix_increasing(make_xs(rng, ny, rng.choice(["uniform", "random", "geometric", "clustered"])))
-    f = [[rng.uniform(-10, 10) for _ in range(ny)] for _ in range(nx)]
+    xs0 = fix_increasing(make_xs(rng, nx, rng.choice(["uniform", "random", "geometric", "clustered"])))
+    ys0 = fix_increasing(make_xs(rng, ny, rng.choice(["uniform", "random", "geometric", "clustered"])))
+    f = [[(rng.uniform(-10, 10) if nx % 2 else float(rng.randint(-50, 50))) for _ in range(ny)] for _ in range(nx)]
+    xd = exact_factor(rng, xs0, [-1.0, -1.0, 2.0, 0.5], [3.0, 1.5])
+    yd = exact_factor(rng, ys0, [-1.0, -1.0, 4.0, 0.25], [3.0, 0.75])
+    fd = exact_factor(rng, [v for r in f for v in r], [-1.0, -1.0, 2.0, 0.125], [7.0, 3.0])
+    xs = fix_increasing(scaled(xs0, xd)); ys = fix_increasing(scaled(ys0, yd))
     length = rng.choice([5, 40, 200, 800 if tier == "thorough" else 300])
     kx = walk(rng, xs, length)
     ky = walk(rng, ys, length)
@@ -276,15 +304,73 @@ def hist2_request(rng, tier):
             H.append("P %s" % hx(rng.choice([-1.0, 2.0, 0.5, 1e-20, rng.uniform(-5, 5)])))
         elif c < 0.98:
             H.append("X %s" % hx(rng.choice([-1.0, 2.0, 0.5])))
-        else:
+        elif c < 0.99 or not any(h == "C" for h in H):
             H.append("C")
+        else:   # query the copies while their source is overwritten by another table (0) / destroyed (1)
+            H.append("Z %d %s %s" % (rng.randint(0, 1), hx(point(rng, xs, a)), hx(point(rng, ys, b))))
+    if any(h == "C" for h in H):
+        H.append("Z 0 %s %s" % (hx(point(rng, xs, rng.randrange(nx - 1))), hx(point(rng, ys, rng.randrange(ny - 1)))))
+        H.append("Z 1 %s %s" % (hx(point(rng, xs, rng.randrange(nx - 1))), hx(point(rng, ys, rng.randrange(ny - 1)))))
     Q = []
     for _ in range(4):
         x = rng.choice([xs[rng.randrange(nx)], point(rng, xs, rng.randrange(nx - 1))])
         y = rng.choice([ys[rng.randrange(ny)], point(rng, ys, rng.randrange(ny - 1))])
         Q.append("I %s %s" % (hx(x), hx(y)))
     Q += ["gm", "gM"]
-    return "c09.hist2 %s %s %d %s %d %s %d %s" % (lst(xs), lst(ys), nx, " ".join(lst(r) for r in f), len(H), " ".join(H), len(Q), " ".join(Q))
+    return "c09.hist2 %s %s %d %s %s %s %s %d %s %d %s" % (lst(xs0), lst(ys0), nx, " ".join(lst(r) for r in f), hx(xd), hx(yd), hx(fd),
+                                                           len(H), " ".join(H), len(Q), " ".join(Q))
+
+
+
+def pool_request(rng, tier):
+    """several objects: copies (construct / assign), assignment of newly built objects with another table of the
+    same or another length, destruction of sources; queries on every live slot"""
+    n = rng.choice([3, 5, 8, 20, 60, 200])
+    base = fix_increasing(make_xs(rng, n, rng.choice(["uniform", "random", "geometric", "clustered"])))
+    tabs = [(base, make_ys(rng, n, rng.randrange(4)))]
+    # same length, other abscissae (compressed / shifted); other lengths
+    tabs.append((fix_increasing([base[0] + 0.4375 * (v - base[0]) for v in base]), make_ys(rng, n, rng.randrange(4))))
+    tabs.append((fix_increasing([v + 0.37 * (base[-1] - base[0]) for v in base]), make_ys(rng, n, 0)))
+    for m in (max(3, n // 2), n + rng.randint(1, 7)):
+        tabs.append((fix_increasing(make_xs(rng, m, rng.choice(["uniform", "random"]))), make_ys(rng, m, rng.randrange(4))))
+    ns = rng.randint(2, 5)
+    live = {}
+    ops = []
+
+    def q(s_):
+        xs = tabs[live[s_]][0]
+        k = rng.randint(0, len(xs) - 2)
+        for _ in range(rng.randint(1, 6)):
+            k = max(0, min(len(xs) - 2, k + rng.choice([-12, -3, -1, 0, 0, 1, 1, 2, 5, 11, 40])))
+            ops.append("Q %d %s" % (s_, op_at(rng, xs, k, 0.45)))
+
+    ops.append("N 0 0"); live[0] = 0
+    for _ in range(rng.randint(6, 60 if tier == "thorough" else 30)):
+        c = rng.random()
+        L = sorted(live)
+        if c < 0.22 and L:
+            i = rng.choice(L); j = rng.randrange(ns)
+            if i != j:
+                ops.append("K %d %d" % (i, j)); live[j] = live[i]
+                q(j)
+        elif c < 0.38 and len(L) >= 2:
+            i, j = rng.sample(L, 2)
+            ops.append("A %d %d" % (i, j)); live[j] = live[i]
+            q(j)
+        elif c < 0.6:
+            s_ = rng.randrange(ns); t = rng.randrange(len(tabs))
+            ops.append("N %d %d" % (s_, t)); live[s_] = t
+            for o_ in list(live):   # every other slot must be unaffected
+                if rng.random() < 0.8:
+                    q(o_)
+        elif c < 0.72 and len(L) >= 2:
+            s_ = rng.choice(L)
+            ops.append("X %d" % s_); del live[s_]
+            for o_ in list(live):
+                q(o_)
+        elif L:
+            q(rng.choice(L))
+    return "c09.pool %d %s %d %d %s" % (len(tabs), " ".join(lst(x) + " " + lst(y) for x, y in tabs), ns, len(ops), " ".join(ops))
 
 
 def locate1_requests(rng, tier):
@@ -324,9 +410,11 @@ def generate(tier, seed, ctx):
         R.append(hist_error_request(rng))
     for _ in range(120 if thorough else 30):
         R.append(hist2_request(rng, tier))
+    for _ in range(400 if thorough else 90):
+        R.append(pool_request(rng, tier))
     # malformed tables: constructor must stop with a diagnostic (model: err)
-    R.append("c09.hist %s %s 0 0" % (lst([0.0, 1.0]), lst([0.0, 1.0])))
-    R.append("c09.hist %s %s 0 0" % (lst([0.0, 1.0, 1.0]), lst([0.0, 1.0, 2.0])))
+    R.append("c09.hist %s %s %s %s 0 0" % (lst([0.0, 1.0]), lst([0.0, 1.0]), hx(-1.0), hx(2.0)))
+    R.append("c09.hist %s %s %s %s 0 0" % (lst([0.0, 1.0, 1.0]), lst([0.0, 1.0, 2.0]), hx(2.0), hx(-1.0)))
     return R
 
 
@@ -339,16 +427,49 @@ def parse_hist(a):
     pos = 0
     n = int(a[pos]); xs = [fl(t) for t in a[pos + 1:pos + 1 + n]]; pos += 1 + n
     n = int(a[pos]); ys = [fl(t) for t in a[pos + 1:pos + 1 + n]]; pos += 1 + n
+    xd = fl(a[pos]); fd = fl(a[pos + 1]); pos += 2
+    xs = scaled(xs, xd)
     ops = []
     for _ in range(2):
         k = int(a[pos]); pos += 1
         cur = []
         for _ in range(k):
             t = a[pos]
-            ar = {"I": 1, "L": 1, "P": 1, "X": 1, "D": 2, "G": 2, "m": 2, "M": 2, "gm": 0, "gM": 0, "C": 0}[t]
+            ar = ARITY[t]
             cur.append(a[pos:pos + 1 + ar]); pos += 1 + ar
         ops.append(cur)
     return xs, ys, ops[0], ops[1]
+
+
+ARITY = {"I": 1, "L": 1, "P": 1, "X": 1, "D": 2, "G": 2, "m": 2, "M": 2, "gm": 0, "gM": 0, "C": 0}
+
+
+def parse_pool(a):
+    """-> list of (op tokens or None, table abscissae of the slot at that time or None)"""
+    pos = 0
+    nt = int(a[pos]); pos += 1
+    tabs = []
+    for _ in range(nt):
+        n = int(a[pos]); xs = [fl(t) for t in a[pos + 1:pos + 1 + n]]; pos += 1 + n
+        n = int(a[pos]); pos += 1 + n
+        tabs.append(xs)
+    pos += 1
+    k = int(a[pos]); pos += 1
+    slot = {}
+    ops, tables = [], []
+    for _ in range(k):
+        t = a[pos]
+        if t == "N":
+            slot[int(a[pos + 1])] = int(a[pos + 2]); pos += 3; ops.append(None); tables.append(None)
+        elif t in ("K", "A"):
+            slot[int(a[pos + 2])] = slot.get(int(a[pos + 1])); pos += 3; ops.append(None); tables.append(None)
+        elif t == "X":
+            slot.pop(int(a[pos + 1]), None); pos += 2; ops.append(None); tables.append(None)
+        else:
+            s_ = int(a[pos + 1]); q = a[pos + 2]
+            ops.append(a[pos + 2:pos + 3 + ARITY[q]]); tables.append(tabs[slot[s_]] if slot.get(s_) is not None else None)
+            pos += 3 + ARITY[q]
+    return ops, tables
 
 
 def same_bits(u, v):
@@ -399,11 +520,29 @@ def compare(rq, impl, model, ctx):
     ti, tm = toks(impl), toks(model)
     if twod:
         return fs + compare_stream(rq, None, None, ti, tm, ctx, op)
+    if op == "c09.pool":
+        ops, tables = parse_pool(a)
+        return fs + compare_stream(rq, None, ops, ti, tm, ctx, op, tables)
     xs, ys, H, Q = parse_hist(a)
     return fs + compare_stream(rq, xs, H + Q, ti, tm, ctx, op)
 
 
-def compare_stream(rq, xs, ops, ti, tm, ctx, opname):
+K_B = 256                        # class-B factor for values against the model (as in C08; worst observed ratio < 4)
+ATOL = Fraction(1, 2 ** 1000)    # underflow is not in the model
+
+
+def denormal_arg(o):
+    for t in (o or [])[1:]:
+        try:
+            v = fl(t)
+        except ValueError:
+            continue
+        if 0 < abs(v) < 1e-200:
+            return True
+    return False
+
+
+def compare_stream(rq, xs, ops, ti, tm, ctx, opname, tables=None):
     out = []
     pi = pm = 0
     step = 0
@@ -412,6 +551,9 @@ def compare_stream(rq, xs, ops, ti, tm, ctx, opname):
         while pm < len(tm):
             km = tm[pm]
             o = ops[step] if ops else None
+            if tables is not None:
+                xs = tables[step]
+                nc = nclass(len(xs)) if xs else 9
             if km == "U":
                 if ti[pi] != "U":
                     return out + [fail("corr", "history stream out of step", "step %d" % step)]
@@ -437,7 +579,7 @@ def compare_stream(rq, xs, ops, ti, tm, ctx, opname):
                                     "Locate: index differs from the model" + ("" if brk else " and does not bracket x"),
                                     "step %d %s: impl %d model %d" % (step, " ".join(o) if o else "", js[0], jm)))
             elif km == "V":
-                md = tm[pm + 1]; pm += 2
+                md = tm[pm + 1]; mval = fr(tm[pm + 2]); mscale = fr(tm[pm + 3]); pm += 4
                 kind = o[0] if o else "I2"
                 ctx["nontrivial"].add((opname, nc, md, kind))
                 bump(ctx, "value." + kind)
@@ -457,6 +599,16 @@ def compare_stream(rq, xs, ops, ti, tm, ctx, opname):
                     out.append(fail("prop", "answer of the %s differs from the answer of a new object (%s%s)" % (
                         who, kind + (o[2] if kind == "D" else ""), ", at a tabulated abscissa" if knot else ""),
                         "step %d %s: %r vs %r" % (step, " ".join(o) if o else "", vs[bad[0]], vs[bad[0] + 1])))
+                # class B: the used object's value against the model (table x units x the factor left by the history)
+                if not bad and not denormal_arg(o) and not (math.isnan(vs[0]) or math.isinf(vs[0])):
+                    d = abs(Fraction(vs[0]) - mval)
+                    if mscale > 0 and d > ATOL:
+                        r = float(d / (EPS * mscale))
+                        if r > ctx["stats"].get("max_ratio_x1000", 0) / 1000.0:
+                            ctx["stats"]["max_ratio_x1000"] = int(r * 1000)
+                    if d > K_B * EPS * mscale + ATOL:
+                        out.append(fail("prop", "answer differs from the model's value: table x units x the factor left by Set_Prefactor/Multiply (%s)" % kind,
+                                        "step %d %s: impl %r model %r scale %r" % (step, " ".join(o) if o else "", vs[0], float(mval), float(mscale))))
                 if xs is not None and o is not None and len(o) > 1 and at_knot(xs, o):
                     bump(ctx, "value-at-knot")
             else:
